@@ -135,3 +135,12 @@ SHA1_LOOPS = [
 SHA1_EXTRA = {"late_src": ["models/snprintf.c"], "timeout": 1200, "mem_gb": 10, "unwind": 10, "wip": True}
 JOBS += [_method("sha1crypt", "M_sha1crypt", SHA1_LOOPS, ["crypt_sha1crypt_rn", "to64"], extra=dict(SHA1_EXTRA, set_cap=128)),
          _method("sha1crypt", "M_sha1crypt", SHA1_LOOPS, ["crypt_sha1crypt_rn", "to64"], weak=True, extra=dict(SHA1_EXTRA))]
+
+def _region(unit):
+    return {"name": "yescrypt_region_" + unit, "props": ["C15", "C04"],
+            "functions": ["alloc_region"] if unit == "alloc" else ["free_region", "init_region"],
+            "harness": "harness/yescrypt_region.c", "defs": ["U_%s=1" % unit],
+            "unwind": 4, "mem_gb": 2, "timeout": 120, "no_native": True,
+            "assumptions": ["mmap/munmap model: each call may fail independently; a successful mmap returns a fresh object"]}
+
+JOBS += [_region("alloc"), _region("free")]
